@@ -31,6 +31,9 @@ class SequenceOrSetPayloadDecoder(object):
     def __call__(self, pyObject, asn1Spec, decodeFun=None, **options):
         asn1Value = asn1Spec.clone()
 
+        # an empty mapping is a value too
+        asn1Value.clear()
+
         componentsTypes = asn1Spec.componentType
 
         for field in asn1Value:
@@ -43,6 +46,9 @@ class SequenceOrSetPayloadDecoder(object):
 class SequenceOfOrSetOfPayloadDecoder(object):
     def __call__(self, pyObject, asn1Spec, decodeFun=None, **options):
         asn1Value = asn1Spec.clone()
+
+        # an empty list is a value too
+        asn1Value.clear()
 
         for pyValue in pyObject:
             asn1Value.append(decodeFun(pyValue, asn1Spec.componentType), **options)
